@@ -25,7 +25,7 @@ CHECKS = {
    engine='genc-doc',
    category='translation_validation',
    text='Generated-C machine only (the two interpreter engines are C++/DOM and not applicable): for each corpus document the C emitted by uscxml-transform built from /repo is validated - the invariant "legal configuration (Recommendation 3.11, phrased over an independent XML reading of the document) + consistent remembered history" is proved inductive for the emitted uscxml_step() from the pristine context and from every context satisfying it, for every pending event and every answer of the callbacks. Histories and configurations are closed by induction; programs are a corpus (hand-written charts aimed at history/parallel/internal/initial mechanisms + W3C IRP documents), not all documents. Counterexamples are replayed natively on the emitted file under ASan and searched for reachability from initialisation.',
-   note='Trusted: CBMC 6.11, the build of uscxml-transform from /repo, python xml.etree reading of the document, wf.h/spec_rec.h transcription of 3.11. Assumed: callbacks honour const ctx; derived preconditions (is_matched, raise_done_event, invoke non-NULL). Nested-history documents: history clause not decided. Where the loop contract of the DEQUEUE_EVENT loop exceeds the tool budget the document counts as bounded.',
+   note='Trusted: CBMC 6.11, the build of uscxml-transform from /repo, python xml.etree reading of the document, wf.h/spec_rec.h transcription of 3.11. Assumed: callbacks honour const ctx; derived preconditions (is_matched, raise_done_event, invoke non-NULL). Nested-history documents: history clause not decided by the inductive argument; for the hand-written ones a bounded stand-in (9 steps from initialisation) runs, counted as bounded; one known finding (KF-C02-1) is reported by it. Where the loop contract of the DEQUEUE_EVENT loop exceeds the tool budget the document counts as bounded.',
    technique='CBMC contract instrumentation (goto-instrument --dfcc) on the emitted uscxml_step() per document: inductive invariant as pre/postcondition, loop contract + glue lemma for the one unbounded loop',
    design='3/C02'),
  'C04': dict(
